@@ -53,3 +53,9 @@ let () =
   register "dec" (fun tk -> match tk with
     | [_; kind; hx] -> obs "dec %s" (decode kind (bytes_of_hex hx))
     | _ -> failwith "dec")
+
+let () =
+  register "hdr" (fun tk -> match tk with
+    | [_; name] -> with_file "hdr" name (fun h -> match h_header h with
+        | None -> obs "hdr panic" | Some hd -> obs "hdr %s" (show_header hd))
+    | _ -> failwith "hdr")
